@@ -43,7 +43,7 @@ const smallBody = 700
 
 // ---------- scripts ----------
 type hop struct {
-	Kind  string // set add del wh write
+	Kind  string // set add del clear wh write
 	Key   string // as passed to the real Header method (any casing)
 	Val   string
 	Code  int
@@ -61,12 +61,43 @@ type script struct {
 	Dirty  int // 0: leave the pool alone; 1..3: seed it with a used writer first
 }
 
+type infoResp struct {
+	Code int
+	Hdr  http.Header
+}
+
 type obs struct {
 	Panicked bool
 	PanicVal string
 	Code     int
 	Hdr      http.Header
+	Info     []infoResp
 	Body     []byte
+}
+
+// srvWriter is the underlying http.ResponseWriter of the scripted runs: an
+// httptest.ResponseRecorder behind net/http's rule for informational status
+// codes (server.go: a 1xx WriteHeader before the final one is sent at once with
+// the current header map and does not finalise the response; the recorder alone
+// would take it for the final status).
+type srvWriter struct {
+	rec   *httptest.ResponseRecorder
+	wrote bool
+	info  []infoResp
+}
+
+func (w *srvWriter) Header() http.Header { return w.rec.Header() }
+func (w *srvWriter) WriteHeader(code int) {
+	if !w.wrote && code >= 100 && code <= 199 && code != 101 {
+		w.info = append(w.info, infoResp{code, w.rec.Header().Clone()})
+		return
+	}
+	w.wrote = true
+	w.rec.WriteHeader(code)
+}
+func (w *srvWriter) Write(b []byte) (int, error) {
+	w.wrote = true
+	return w.rec.Write(b)
 }
 
 var regexps = []*regexp.Regexp{
@@ -101,6 +132,9 @@ var contentTypes = []string{
 var encodings = []string{"", "gzip", "br", "identity", "deflate", "GZIP"}
 
 var codes = []int{200, 200, 201, 202, 204, 206, 301, 302, 304, 400, 404, 418, 500, 502, 503, 999}
+
+// informational codes (101 Switching Protocols is outside the modelled domain)
+var infoCodes = []int{100, 102, 103, 103, 103, 110, 199}
 
 func gzipBytes(b []byte) []byte {
 	var buf bytes.Buffer
@@ -282,8 +316,22 @@ func randScript(r *rand.Rand, class string, maxBody int) *script {
 	for i := r.Intn(4); i > 0; i-- {
 		s.Ops = append(s.Ops, randHeaderOp(r, len(body)))
 	}
+	if r.Intn(6) == 0 { // informational responses before the final headers exist, the way ReverseProxy forwards them
+		for i := 1 + r.Intn(2); i > 0; i-- {
+			if r.Intn(2) == 0 {
+				s.Ops = append(s.Ops, hop{Kind: "set", Key: "Link", Val: "</a.css>; rel=preload"})
+			}
+			s.Ops = append(s.Ops, hop{Kind: "wh", Code: infoCodes[r.Intn(len(infoCodes))]})
+			if r.Intn(3) != 0 {
+				s.Ops = append(s.Ops, hop{Kind: "clear"})
+			}
+		}
+	}
 	if r.Intn(3) != 0 { // most upstream responses carry a content type
 		s.Ops = append(s.Ops, hop{Kind: "set", Key: casing(r, "Content-Type"), Val: contentTypes[r.Intn(len(contentTypes))]})
+	}
+	if r.Intn(12) == 0 { // ... or between the final headers and the final status
+		s.Ops = append(s.Ops, hop{Kind: "wh", Code: infoCodes[r.Intn(len(infoCodes))]})
 	}
 	if r.Intn(2) == 0 {
 		s.Ops = append(s.Ops, hop{Kind: "wh", Code: codes[r.Intn(len(codes))]})
@@ -293,7 +341,7 @@ func randScript(r *rand.Rand, class string, maxBody int) *script {
 			s.Ops = append(s.Ops, randHeaderOp(r, len(body))) // too late: must have no effect
 		}
 		if r.Intn(25) == 0 {
-			s.Ops = append(s.Ops, hop{Kind: "wh", Code: codes[r.Intn(len(codes))]}) // superfluous
+			s.Ops = append(s.Ops, hop{Kind: "wh", Code: append(codes, infoCodes...)[r.Intn(len(codes)+len(infoCodes))]}) // superfluous
 		}
 		s.Ops = append(s.Ops, hop{Kind: "write", Data: c})
 	}
@@ -347,6 +395,8 @@ func execute(s *script) obs {
 				w.Header().Add(o.Key, o.Val)
 			case "del":
 				w.Header().Del(o.Key)
+			case "clear":
+				clear(w.Header())
 			case "wh":
 				w.WriteHeader(o.Code)
 			case "write":
@@ -362,13 +412,14 @@ func execute(s *script) obs {
 		seedPool(s.Dirty)
 	}
 	var o obs
-	p, v := vh.Recover(func() { h.ServeHTTP(rec, req) })
+	sw := &srvWriter{rec: rec}
+	p, v := vh.Recover(func() { h.ServeHTTP(sw, req) })
 	o.Panicked = p
 	if p {
 		o.PanicVal = fmt.Sprint(v)
 	}
 	res := rec.Result()
-	o.Code, o.Hdr, o.Body = res.StatusCode, res.Header, rec.Body.Bytes()
+	o.Code, o.Hdr, o.Body, o.Info = res.StatusCode, res.Header, rec.Body.Bytes(), sw.info
 	return o
 }
 
@@ -438,6 +489,8 @@ func emit(run *vh.Run, s *script, o obs) {
 			ops = append(ops, vh.App("AddHeader", vh.HxS(ck), vh.HxS(op.Val)))
 		case "del":
 			ops = append(ops, vh.App("DelHeader", vh.HxS(ck)))
+		case "clear":
+			ops = append(ops, "ClearHeaders")
 		case "wh":
 			ops = append(ops, vh.App("WriteHeader", vh.N(op.Code)))
 		case "write":
@@ -448,7 +501,7 @@ func emit(run *vh.Run, s *script, o obs) {
 			wi++
 			ops = append(ops, vh.App("Write", t))
 		}
-		if ck == "Content-Type" && op.Kind != "del" {
+		if ck == "Content-Type" && (op.Kind == "set" || op.Kind == "add") {
 			ctSet[op.Val] = true
 		}
 	}
@@ -489,9 +542,15 @@ func emit(run *vh.Run, s *script, o obs) {
 	if isGz {
 		gun = vh.Some(render(dec))
 	}
+	infos := make([]string, len(o.Info))
+	infoCodesSeen := make([]int, len(o.Info))
+	for i, in := range o.Info {
+		infos[i] = vh.Pair(vh.N(in.Code), coqHdr(in.Hdr))
+		infoCodesSeen[i] = in.Code
+	}
 	term := vh.App("Case", coqHdr(s.H0), coqStrs(s.Accept), coqStrs(s.AE), vh.List(ops),
 		vh.List(ctItems), sniffTbl,
-		vh.Bool(o.Panicked), vh.N(o.Code), coqHdr(o.Hdr), render(o.Body), gun)
+		vh.Bool(o.Panicked), vh.N(o.Code), coqHdr(o.Hdr), vh.List(infos), render(o.Body), gun)
 	kinds := make([]string, len(s.Ops))
 	for i, op := range s.Ops {
 		switch op.Kind {
@@ -499,6 +558,8 @@ func emit(run *vh.Run, s *script, o obs) {
 			kinds[i] = fmt.Sprintf("write(%d)", len(op.Data))
 		case "wh":
 			kinds[i] = fmt.Sprintf("wh(%d)", op.Code)
+		case "clear":
+			kinds[i] = "clear"
 		default:
 			kinds[i] = fmt.Sprintf("%s(%s=%q)", op.Kind, op.Key, op.Val)
 		}
@@ -508,7 +569,7 @@ func emit(run *vh.Run, s *script, o obs) {
 	}
 	sample := map[string]interface{}{"accept": s.Accept, "accept_encoding": s.AE, "regexp": s.Re.String(), "h0": s.H0,
 		"ops": kinds, "written": len(all), "tokenised": tokenised, "pool_seed": s.Dirty,
-		"status": o.Code, "resp_header": o.Hdr, "body_len": len(o.Body), "body_is_gzip": isGz, "panic": o.PanicVal}
+		"status": o.Code, "informational": infoCodesSeen, "resp_header": o.Hdr, "body_len": len(o.Body), "body_is_gzip": isGz, "panic": o.PanicVal}
 	id := run.Add(s.Class, term, sample)
 	if o.Panicked {
 		run.Violation(id, "gzip handler panicked: "+o.PanicVal, sample)
@@ -636,16 +697,18 @@ func runE2E(run *vh.Run) {
 								got = d
 							}
 						}
-						ok := err == nil && res.ReadErr == "" && res.Status == 200 && bytes.Equal(got, body) && (res.CE == "" || (res.CE == "gzip" && ae == "gzip" && re.MatchString(ct)))
+						wantGzip := ae == "gzip" && re.MatchString(ct)
+						ok := err == nil && res.ReadErr == "" && res.Status == 200 && bytes.Equal(got, body) &&
+							((res.CE == "" && !wantGzip && res.CL == strconv.Itoa(len(body))) || (res.CE == "gzip" && wantGzip))
 						if ok {
 							continue
 						}
 						if err != nil {
 							in["client_error"] = err.Error()
 						}
-						what := "end to end through net/http server and ReverseProxy: the client does not receive the upstream's body"
-						if hints && re.MatchString("") {
-							what = "after a 103 Early Hints from the upstream (content-type expression matches the empty string) the final response is gzip-compressed without Content-Encoding: gzip and with the upstream's stale Content-Length"
+						what := "end to end through net/http server and ReverseProxy: the client does not receive the upstream's response (body, Content-Encoding label or Content-Length wrong)"
+						if hints {
+							what += " after a 103 Early Hints"
 						}
 						run.Violation(-1, what, in)
 					}
@@ -748,6 +811,53 @@ func main() {
 		case 9: // several values for the deciding headers
 			s.Ops = []hop{{Kind: "add", Key: "Content-Type", Val: ct1}, {Kind: "add", Key: "Content-Type", Val: ct2},
 				{Kind: "add", Key: "Content-Encoding", Val: encodings[r.Intn(2)]}, {Kind: "add", Key: "Content-Encoding", Val: "br"}, w(30)}
+		}
+		do(s)
+	}
+
+	// 4b. informational responses: the calls httputil.ReverseProxy makes for an upstream that sends
+	//     1xx (copy the 1xx headers, WriteHeader(1xx), clear the map), then the final response
+	for i := 0; i < run.Scale(160, 1600); i++ {
+		s := &script{Class: "informational-1xx", Re: regexps[i%len(regexps)], AE: [][]string{{"gzip"}, {"gzip, deflate"}, nil, {"gzip;q=0"}}[r.Intn(4)], H0: randH0(r)}
+		if i%3 != 0 {
+			s.AE = []string{"gzip"}
+		}
+		body := makeBody(r, r.Intn(3), r.Intn(300))
+		for k := 1 + r.Intn(2); k > 0; k-- {
+			switch r.Intn(4) {
+			case 0: // early hints carrying headers that would sway the decision
+				s.Ops = append(s.Ops, hop{Kind: "set", Key: "Content-Type", Val: contentTypes[r.Intn(len(contentTypes))]})
+			case 1:
+				s.Ops = append(s.Ops, hop{Kind: "set", Key: "Content-Encoding", Val: encodings[r.Intn(len(encodings))]})
+			default:
+				s.Ops = append(s.Ops, hop{Kind: "set", Key: "Link", Val: "</style.css>; rel=preload; as=style"})
+			}
+			s.Ops = append(s.Ops, hop{Kind: "wh", Code: infoCodes[r.Intn(len(infoCodes))]})
+			if r.Intn(5) != 0 {
+				s.Ops = append(s.Ops, hop{Kind: "clear"})
+			}
+		}
+		if r.Intn(8) != 0 {
+			s.Ops = append(s.Ops, hop{Kind: "set", Key: "Content-Type", Val: contentTypes[r.Intn(len(contentTypes))]})
+		}
+		if r.Intn(2) == 0 {
+			s.Ops = append(s.Ops, hop{Kind: "set", Key: "Content-Length", Val: strconv.Itoa(len(body))})
+		}
+		if r.Intn(6) == 0 {
+			s.Ops = append(s.Ops, hop{Kind: "set", Key: "Content-Encoding", Val: encodings[r.Intn(len(encodings))]})
+		}
+		switch r.Intn(4) {
+		case 0: // implicit final header
+		case 1: // nothing after the informational response at all
+			body = nil
+		default:
+			s.Ops = append(s.Ops, hop{Kind: "wh", Code: codes[r.Intn(len(codes))]})
+		}
+		for _, c := range chunks(r, body) {
+			s.Ops = append(s.Ops, hop{Kind: "write", Data: c})
+		}
+		if r.Intn(6) == 0 {
+			s.Ops = append(s.Ops, hop{Kind: "wh", Code: 103}) // after the final header: ignored
 		}
 		do(s)
 	}
